@@ -221,6 +221,7 @@ theorem step_frame (s : Sys F) (e : Ev) (h : notHk e = true) :
   | setCfg cfg => exact pw_refl _
   | crit d => exact pw_refl _
   | failNext cid => exact pw_refl _
+  | failBind cid => exact pw_refl _
 
 /-- The state after a list of events (outputs dropped). -/
 def runEvs (s : Sys F) (evs : List Ev) : Sys F := evs.foldl (fun s e => (step s e).1) s
@@ -456,6 +457,7 @@ theorem step_id (s : Sys F) (e : Ev) : PW IdFrame s.links (step s e).1.links := 
   | setCfg cfg => exact id_refl _
   | crit d => exact id_refl _
   | failNext cid => exact id_refl _
+  | failBind cid => exact id_refl _
 
 theorem runEvs_id (s : Sys F) (evs : List Ev) : PW IdFrame s.links (runEvs s evs).links := by
   unfold runEvs
@@ -505,8 +507,9 @@ theorem step_lks (s : Sys F) (e : Ev) (j : Nat) (l l' : FLink F) (hl : s.links[j
       obtain ⟨m, hm, hk⟩ := h2 j l hl
       have hl'' : (handleHousekeeping s now).1.links[j]? = some l' := hl'
       rw [hm] at hl''; cases hl''
-      rcases hk.change with h | ⟨h, hw⟩
+      rcases hk.change with h | h | ⟨h, hw⟩
       · exact Or.inl h
+      · exact Or.inr (Or.inl h)
       · exact Or.inr (Or.inr ⟨now, rfl, h, hw⟩)
     | _ => simp [notHk] at hh
 
